@@ -5,7 +5,7 @@ id=$1; tier=${2:-quick}; R=${VERIF_REPO:-/tmp/repo-x}
 src=/verif/seeded/$id-r3; [ -f $src/patch.diff ] || src=/tmp/seed3/out/$id
 cd /verif
 git -C $R apply $src/patch.diff || { echo "$id: DOES-NOT-APPLY"; exit 2; }
-out=$(GOFLAGS=-mod=mod GOPROXY=off timeout 2400 ./bin/vcheck run --repo $R ${WORKERS:+--workers $WORKERS} --prop $id --tier $tier --no-evidence 2>&1); rc=$?
+out=$(GOFLAGS=-mod=mod GOPROXY=off timeout 2400 ./bin/vcheck run --repo $R ${WORKERS:+--workers $WORKERS} --prop $id --tier $tier --no-evidence ${FAILFAST:+--fail-fast} 2>&1); rc=$?
 git -C $R checkout -- .
 echo "$id[$tier]: exit=$rc $(echo "$out" | grep -c '^VIOLATION') violations; $(echo "$out" | grep '^SUMMARY' | sed 's/.*wall_s=/wall_s=/')"
 echo "$out" | grep "^VIOLATION\|^  harness\|^INCONCLUSIVE" | cut -c1-220 | head -6
